@@ -44,7 +44,9 @@ func (fv *FnVerifier) wfListTerm(st *State, l string) string {
 		nx, pv, e, e,
 		nx, e, l, ow, nx, e, l,
 		pv, e, l, ow, pv, e, l)
-	return fmt.Sprintf("(and (= (select %s (select %s %s)) %s) (= (select %s (select %s %s)) %s) %s (= (= (select %s %s) %s) (= (select %s %s) %s)) (= (= (select %s %s) %s) (= (select %s %s) %s)) (or (= (select %s %s) %s) (= (select %s (select %s %s)) %s)) (or (= (select %s %s) %s) (= (select %s (select %s %s)) %s)) (not (= (select %s %s) %s)) (forall ((%s Int)) (! %s :pattern ((select %s %s)) :pattern ((select %s %s)))))",
+	one := fv.mode.idx(1)
+	single := fmt.Sprintf("(= (= (select %s %s) %s) (and (not (= (select %s %s) %s)) (= (select %s %s) (select %s %s))))", ln, l, one, nx, l, l, nx, l, pv, l)
+	return "(and " + single + " " + fmt.Sprintf("(and (= (select %s (select %s %s)) %s) (= (select %s (select %s %s)) %s) %s (= (= (select %s %s) %s) (= (select %s %s) %s)) (= (= (select %s %s) %s) (= (select %s %s) %s)) (or (= (select %s %s) %s) (= (select %s (select %s %s)) %s)) (or (= (select %s %s) %s) (= (select %s (select %s %s)) %s)) (not (= (select %s %s) %s)) (forall ((%s Int)) (! %s :pattern ((select %s %s)) :pattern ((select %s %s)))))",
 		pv, nx, l, l,
 		nx, pv, l, l,
 		fv.mode.cmp(">=", "(select "+ln+" "+l+")", zero, true),
@@ -53,7 +55,7 @@ func (fv *FnVerifier) wfListTerm(st *State, l string) string {
 		nx, l, l, ow, nx, l, l,
 		pv, l, l, ow, pv, l, l,
 		ow, l, l,
-		e, body, nx, e, pv, e)
+		e, body, nx, e, pv, e) + ")"
 }
 
 func (fv *FnVerifier) listNonNil(l Val, what string, pos token.Pos) {
@@ -268,7 +270,15 @@ func init() {
 				fv.frameCheckKey(st, k, l, pos, "list:"+fv.exprText(c.Args[0]))
 			}
 			// elements of the old list keep their (stale) owner in the library too (lazy); here they are detached conservatively
-			fv.heapHavoc(st, "list.owner")
+			// ghost reading of ownership: exactly l's elements are detached, every other list keeps its elements
+			// (the library leaves stale e.list pointers in the old elements; using such an element afterwards is not modelled)
+			{
+				ow := fv.heapGet(st, "list.owner")
+				ow2 := fv.heapHavoc(st, "list.owner")
+				e := fv.q.fresh("ie")
+				fv.q.assume(fmt.Sprintf("(forall ((%s Int)) (! (= (select %s %s) (ite (= (select %s %s) %s) 0 (select %s %s))) :pattern ((select %s %s))))", e, ow2, e, ow, e, l, ow, e, ow2, e))
+				fv.note("model: List.Init detaches exactly the list's elements (stale element pointers of the old contents are not modelled)")
+			}
 			fv.lset(st, "list.next", l, l)
 			fv.lset(st, "list.prev", l, l)
 			fv.lset(st, "list.owner", l, "0")
